@@ -39,7 +39,7 @@ CHECKS['C04'] = (
     'named env), reference fit deliberately conservative', 'DESIGN.md 4/C04')
 CHECKS['C16'] = (
     'exhaustive enumeration of the single-message domain plus property-based testing (Hypothesis, seeded) '
-    'of message sequences under harness-scheduled delivery orders, against the forwarding expectation A.5; message sources include rp.Client.send_ctrl_msg on every side',
+    'of message sequences under harness-scheduled delivery orders, against the forwarding expectation A.5; message sources include rp.Client.send_ctrl_msg on every side and agent_0\'s command port',
     'complete product 1 client + 0..4 pilots x originating side x channel x fwd {absent,False,True} x origin '
     '{absent, own, every other side, unknown} (+ advance / rpc_req / rpc_res defaults and rpc round trips) through '
     'the real Session._publish_cfg/_crosswire_proxy closures and real Client/AgentComponent publishers; random '
@@ -70,7 +70,7 @@ EXEC_TB = ('trusted base: executor assembly (mt.Thread recorded and run under th
            'thread switches only at yield points; in-memory transport; get_version shim')
 CHECKS['C07'] = (
     'property-based testing (Hypothesis, seeded) of executor schedules under a deterministic cooperative scheduler + '
-    'systematic enumeration (one-task interleavings, preemption sweep of every activity pair, two-task sweeps, start-up reports, limits after a start-up report, launch bursts) against an exactly-once '
+    'systematic enumeration (one-task interleavings, preemption sweep of every activity pair, two-task sweeps, start-up reports, limits after a start-up report, launch bursts; Flux executor work() incl. failing pre_launch commands) against an exactly-once '
     'oracle over the transport event log',
     'random and systematic search over interleavings of intake, the real watcher loop, the real timeout watcher and '
     'cancel handlers x launch fault points x exit codes x timeouts through the real Popen (and NOOP) executor; per '
@@ -101,7 +101,7 @@ CHECKS['C12'] = (
     'scheduler-private _wait_pool/_early/info',
     'DESIGN.md 4/C12')
 CHECKS['C14'] = (
-    'property-based testing (Hypothesis, seeded) of pilot notification histories and of agent termination-cause orders against reference models, plus exhaustive enumeration of _pilot_state_progress (9x9), of all orderings of <=3 termination events (792 runs) and of the killme.signal shell mapping; the real end of bootstrap_0.sh executed with a stand-in agent; kill requests through the real launching component',
+    'property-based testing (Hypothesis, seeded) of pilot notification histories and of agent termination-cause orders against reference models, plus exhaustive enumeration of _pilot_state_progress (9x9), of all orderings of <=3 termination events (792 runs) and of the killme.signal shell mapping; the real end of bootstrap_0.sh executed with a stand-in agent; kill requests and launch failures through the real launching component; job-state reports through the real SAGA (stand-in radical.saga) and PSI/J (real psij job objects) launchers',
     'random search over batches of pilot state notifications (gaps, duplicates, reordering, late non-finals, contradictory finals, unknown uids, 1-3 pilots) through the real pubsub -> PilotManager._state_sub_cb/_update_pilot -> Pilot._update -> pilot-/manager-level callbacks, with the tmgr scheduler as second consumer; and over orders of runtime reached / cancel naming this or another pilot / terminate / stop / loop end through the real Agent_0._check_lifetime (virtual clock), control path, stop and finalize, judged on killme.signal = published state = state of an occurred cause (single cause strict); no counterexample in the explored domain, coverage measured; not a proof',
     TB + '; not reached: bootstrap_0.sh as a whole (only its killme.signal -> final_state lines are executed with bash), agent death without finalize, Agent_0.initialize; a lone terminate/stop accepts CANCELED or FAILED; loss of the rest of a batch after an exception is not demanded',
     'DESIGN.md 4/C14, A.1')
@@ -139,7 +139,7 @@ CHECKS['C20'] = (
     'property-based testing (Hypothesis, seeded): payload-DSL differential oracle on the real raptor dispatchers '
     '(result tuple, os.environ, process environment, streams); model-based request/completion histories through the '
     'real DefaultWorker over fake multiprocessing with an occupancy/exactly-one-result oracle; routing and '
-    'result-accounting histories through the real Master and the agent scheduler\'s raptor forwarding; request streams through the real MPI worker rank loop, allotment and result collection with stand-in communicators',
+    'result-accounting histories through the real Master and the agent scheduler\'s raptor forwarding; request streams through the real MPI worker rank loop, allotment and result collection with stand-in communicators; exhaustive enumeration of alloc/dealloc interleavings of the MPI worker allotment under the deterministic scheduler',
     'random search over payload programs x task modes x request sequences; over worker sizes x demands x outcomes '
     '(ok/raise/timeout/late completion/spawn failure/process death) x completion orders x wait-point schedules; over '
     'request streams of every mode x exit codes x delivery orders x queue (un)registration orders; no counterexample '
@@ -149,7 +149,7 @@ CHECKS['C20'] = (
     'DESIGN.md 4/C20')
 CHECKS['C08'] = (
     'property-based testing (Hypothesis, seeded): cancel-heavy histories through the scheduler-pair and executor engines, '
-    'DIFFERENTIAL run of each executor schedule with and without its cancel requests, generic-intake and request-message parts; model-based histories of the raptor backlog (submit / cancel / register) through the real scheduler intake and control handler',
+    'DIFFERENTIAL run of each executor schedule with and without its cancel requests, generic-intake and request-message parts; model-based histories of the raptor backlog (submit / cancel / register) through the real scheduler intake and control handler; cancel requests through the Flux executor / launch method to the partition running the task',
     'random search over the point of a task\'s life at which a cancel arrives (in the scheduler queue, waiting, placed, in the '
     'executor queue, before spawn, running, after exit) x bystander sets: named tasks leave the wait pool / are killed / are '
     'released exactly once / end CANCELED unless finished, and are not processed by a later component; bystanders keep their '
@@ -181,7 +181,7 @@ CHECKS['C18'] = (
     'DESIGN.md 4/C18')
 CHECKS['C05'] = (
     'property-based testing (Hypothesis, seeded) with fault injection: generated workloads x fault plans x stage polling '
-    'orders through the composed client/agent pipeline, truthfulness oracle on the real Task objects and callbacks; generated Flux job-event streams through the real Flux executor event handler',
+    'orders through the composed client/agent pipeline, truthfulness oracle on the real Task objects and callbacks; generated Flux job-event streams through the real Flux executor event handler, and the Flux executor + launch method pipeline (job ids vs events, partitions) over stand-in Flux instances',
     'random search over workloads, placements of one fault per task (client/agent staging errors, no launcher, launch '
     'errors, non-zero exit, exception inside a per-task handler of six components, output staging errors), cancel requests '
     'and the order in which pipeline stages run; every task ends in exactly one final state that matches exit code / fault / '
